@@ -49,6 +49,8 @@ def run_multi_case(case):
             isbin.append(False)
         else:
             b = np.array([to_float(v) for v in g["x"]], dtype=float)
+            if g.get("xint"):
+                b = b.astype(np.int64)          # integer labels binned by fractional edges
             e = [to_float(v) for v in g["edges"]]
             if g["right"] and not g.get("as_index"):
                 exps.append(np.array(e))
@@ -97,6 +99,10 @@ def mk_grouper(kind, n, sel, rng_i):
         pats = {4: [[0, 1, 0, 1], [1, 0, 2, 1], [0, -1, 1, 0], [2, 2, 0, 1]], 6: [[0, 1, 0, 1, 2, 2], [1, 0, 2, 1, -1, 0], [2, 2, 0, 1, 1, 0]]}
         codes = pats[n][sel % len(pats[n])]
         return {"kind": "cat", "codes": codes, "req": CATREQ[rng_i % len(CATREQ)]}
+    if (sel + rng_i) % 3 == 0:
+        # integer labels, edges at half-integers (also negative): an edge truncated to the label dtype would move members
+        xi = [gen.iv(((2 * sel + 3 * i * (rng_i + 1)) % 7) - 2) for i in range(n)]
+        return {"kind": "bin", "x": xi, "xint": True, "edges": [[-3, 2], [1, 2], [3, 2], [5, 2], [7, 2]][(rng_i % 2):], "right": kind == "binR", "as_index": True}
     x = [XVALS[(sel * 3 + i * (rng_i + 1)) % len(XVALS)] for i in range(n)]
     return {"kind": "bin", "x": x, "edges": EDGES if rng_i % 3 else [gen.iv(0), gen.iv(1), gen.iv(3), gen.iv(5)], "right": kind == "binR",
             "as_index": rng_i % 2 == 0}
